@@ -105,25 +105,26 @@ Inductive setting := SMode (m : mode) | SQuality (b : bool) | SStall (b : bool) 
 
 Definition spec_clamp (ms : Z) : Z := Z.min 60000 (Z.max 1000 ms).
 
+(** the setting a method call with well-typed parameters applies *)
+Definition setting_of (me : string) (p : json) : option setting :=
+  if String.eqb me "set_mode" then
+    match vget p "mode" with
+    | Some (JStr s) => Some (SMode (if String.eqb s "classic" then Classic else Enhanced))
+    | _ => None
+    end
+  else if String.eqb me "set_quality" then
+    match vget p "enabled" with Some (JBool b) => Some (SQuality b) | _ => None end
+  else if String.eqb me "set_stall_deselect" then
+    match vget p "enabled" with Some (JBool b) => Some (SStall b) | _ => None end
+  else if String.eqb me "set_conn_timeout" then
+    match vget p "ms" with Some (JInt z) => Some (STimeout (spec_clamp z)) | _ => None end
+  else None.
+
 Definition spec_setting (l : line_outcome) : option setting :=
   match l with
   | Parsed j =>
       match spec_request j with
-      | Some (v, me, p, _) =>
-          if String.eqb v "2.0" && params_ok me p then
-            if String.eqb me "set_mode" then
-              match vget p "mode" with
-              | Some (JStr s) => Some (SMode (if String.eqb s "classic" then Classic else Enhanced))
-              | _ => None
-              end
-            else if String.eqb me "set_quality" then
-              match vget p "enabled" with Some (JBool b) => Some (SQuality b) | _ => None end
-            else if String.eqb me "set_stall_deselect" then
-              match vget p "enabled" with Some (JBool b) => Some (SStall b) | _ => None end
-            else if String.eqb me "set_conn_timeout" then
-              match vget p "ms" with Some (JInt z) => Some (STimeout (spec_clamp z)) | _ => None end
-            else None
-          else None
+      | Some (v, me, p, _) => if String.eqb v "2.0" && params_ok me p then setting_of me p else None
       | None => None
       end
   | _ => None
